@@ -95,3 +95,48 @@ func HarnessC07_FlvEnums() {
 	vAssert(true, "enum helper returned")
 	vReach("c07-flv-enums")
 }
+
+// HarnessC07_FlvLinear: demuxing a file of n, 2n, 4n small tags, or decoding one audio / video
+// tag body of n, 2n, 4n bytes: the work grows no faster than linearly.
+func HarnessC07_FlvLinear() {
+	shape := vChoice(3)
+	cost := func(n int) int {
+		switch shape {
+		case 0:
+			file := refFLVHeader(true, true)
+			for i := 0; i < n; i++ {
+				file = append(file, refFLVTag(8, uint32(i), []byte{0xaf, 1, byte(i)})...)
+			}
+			return vMeasure(func() {
+				d, _ := NewDemuxer(&segReader{data: file, cut: -1})
+				_, _, _, err := d.ReadHeader()
+				got := 0
+				for err == nil {
+					var size uint32
+					if _, size, _, err = d.ReadTagHeader(); err == nil {
+						if _, err = d.ReadTag(size); err == nil {
+							got++
+						}
+					}
+				}
+				vAssert(got == n, "every tag of the well-formed file is read")
+			})
+		case 1:
+			body := append([]byte{0xaf, 1}, vPattern(n, 3)...)
+			return vMeasure(func() {
+				p, _ := NewAudioPackager()
+				_, err := p.Decode(body)
+				vAssert(err == nil, "a well-formed audio tag decodes")
+			})
+		default:
+			body := append([]byte{0x17, 1, 0, 0, 0}, vPattern(n, 3)...)
+			return vMeasure(func() {
+				p, _ := NewVideoPackager()
+				_, err := p.Decode(body)
+				vAssert(err == nil, "a well-formed video tag decodes")
+			})
+		}
+	}
+	vLinear(cost, 48, 2048, 16384, "FLV decoding cost grows no faster than linearly with the input length")
+	vReach("c07-flv-linear")
+}
